@@ -409,6 +409,9 @@ func c06Atoms(thorough bool, emit func(c06case)) {
 		{val.L(val.S("x")), val.L(val.S("x"), val.S("y"))}, {val.L(val.S("x"), val.S("y")), val.L(val.S("x"))}, {val.L(), val.L(val.S("x"))},
 		{val.M("k", val.N("1")), val.M("k", val.N("1"), "j", val.N("2"))}, {val.M("k", val.N("1"), "j", val.N("2")), val.M("k", val.N("1"))}, {val.M(), val.M("k", val.N("1"))},
 		{val.L(val.S("x"), val.S("x"), val.S("y")), val.L(val.S("x"), val.S("y"), val.S("y"))},
+		// sets that read alike when their members are written next to one another
+		{val.SS("green red"), val.SS("green", "red")}, {val.SS("a", "b c"), val.SS("a b", "c")}, {val.NS("1", "23"), val.NS("12", "3")},
+		{val.BS([]byte("ab")), val.BS([]byte("a"), []byte("b"))}, {val.L(val.S("a b")), val.L(val.S("a"), val.S("b"))}, {val.L(val.S("a"), val.S("b c")), val.L(val.S("a b"), val.S("c"))},
 		// maps and lists of equal size that differ in exactly one of several members (whichever
 		// member a comparison happens to visit first, the others count too)
 		{val.M("k", val.N("1"), "j", val.N("2"), "i", val.N("3"), "h", val.N("4")), val.M("k", val.N("1"), "j", val.N("2"), "i", val.N("3"), "h", val.N("5"))},
